@@ -64,3 +64,71 @@ Proof. vm_compute. split; reflexivity. Qed.
 Print Assumptions C01_client_monitor.
 Print Assumptions C01_unknown_id_frame.
 Print Assumptions C01_ids_unique.
+
+(* ------------------------------------------------------------------------------------------ *)
+(* End-to-end response integrity over the composition of the client and server models
+   (coq/ChainResp*.v; monitor ChainRespSpec.c01c_ok, evaluated on every real chain trace by part
+   compose); names are qualified. *)
+From TarpcV Require Client Server Chain ChainSpec ChainRespSpec ChainResp ChainResp2 ChainResp3.
+(* value provenance across hops, on the COMPOSITION (coq/Chain.v), for EVERY depth, EVERY op
+   list and EVERY state reached (tainted or not, request ids wrapped or not - no hypothesis):
+   whenever a head call resolves with Ok v, some handler of node 0 finished with v before; and
+   whenever a handler of a non-leaf node i finishes with Ok v, some handler of node i+1 finished
+   with v before.  By induction over the hops, v is a value a LEAF handler was scripted to
+   return: no client, link or server of the chain ever fabricates, alters or duplicates-into-
+   existence a reply value.  (Monitor ChainRespSpec.c01c_val: flag rm_val of the fold rmon.)
+   Of the request-identified refinements of the same monitor, rm_yield / rm_uniq / rm_start are
+   proved (C08.v section below), rm_once is proved for runs that end untainted
+   (C01_chain_once_untainted), and rm_body (the producing handler served a request with the
+   caller's body; untainted runs) is pinned in ChainRespSpec.stmt_resp_body and CHECKED on every
+   real trace (Checks/Chaincheck bit 1), not proved. *)
+Theorem C01_chain_value_provenance : forall (d : nat) (ops : list Chain.cop),
+  ChainRespSpec.c01c_val d ops (fst (Chain.run d ops)) = true.
+Proof. exact ChainResp.chain_resp_val. Qed.
+
+(* non-vacuity: depth 3, two head calls, the leaves answer 41 and 42; each value climbs the three
+   hops and resolves its own head call; the whole monitor accepts the run.  It rejects:
+   head call 0 resolved with the other request's value (rm_body), a middle handler finishing
+   with a value no leaf produced (rm_val), a head call resolved twice (rm_once). *)
+Example C01_chain_resp_nonvacuous :
+  let ops := [Chain.HCall 1000 7 true 5; Chain.HCall 1000 9 false 6; Chain.SettleAll;
+              Chain.HandlerPoll 2 0 (Server.SFinish 41); Chain.HandlerPoll 2 1 (Server.SFinish 42);
+              Chain.SettleAll] in
+  let tr := fst (Chain.run 3 ops) in
+  let mut (f : Chain.cobs -> Chain.cobs) := map (map f) tr in
+  filter (fun e => match e with Chain.KCall _ _ | Chain.KHDone _ _ _ => true | _ => false end)
+         (nth 5 tr []) =
+    [Chain.KHDone 1 0 (Server.BOk 41); Chain.KHDone 1 1 (Server.BOk 42);
+     Chain.KHDone 0 0 (Server.BOk 41); Chain.KHDone 0 1 (Server.BOk 42);
+     Chain.KCall 0 (Client.CDone (Client.OReply 41)); Chain.KCall 1 (Client.CDone (Client.OReply 42))]
+  /\ ChainRespSpec.c01c_ok 3 ops tr = true
+  /\ ChainRespSpec.c01c_body 3 ops
+       (mut (fun e => match e with
+                      | Chain.KCall 0 (Client.CDone (Client.OReply 41)) =>
+                        Chain.KCall 0 (Client.CDone (Client.OReply 42))
+                      | _ => e end)) = false
+  /\ ChainRespSpec.c01c_val 3 ops
+       (mut (fun e => match e with
+                      | Chain.KHDone 1 0 (Server.BOk 41) => Chain.KHDone 1 0 (Server.BOk 43)
+                      | _ => e end)) = false
+  /\ ChainRespSpec.c01c_once 3 ops
+       (mut (fun e => match e with
+                      | Chain.KCall 1 (Client.CDone (Client.OReply 42)) =>
+                        Chain.KCall 0 (Client.CDone (Client.OReply 41))
+                      | _ => e end)) = false.
+Proof. vm_compute. repeat split; reflexivity. Qed.
+
+Print Assumptions C01_chain_value_provenance.
+
+(* (ii) a head call resolves (KCall j (CDone _)) at most once and never after it was abandoned,
+   on every run of fewer than 2^64 - 1 ops that ends untainted (the taint flag only rises, so
+   such a run was untainted throughout).  The unrestricted ChainRespSpec.stmt_resp_once needs the
+   client's permit-waiter invariant in all states; it is checked on every real trace only. *)
+Theorem C01_chain_once_untainted : forall (d : nat) (ops : list Chain.cop),
+  ChainSpec.chain_no_wrap ops ->
+  match ChainRespSpec.rm_run d ChainRespSpec.rmon0 ops (fst (Chain.run d ops)) with
+  | Some x => Chain.mo_tainted (ChainRespSpec.rm_mon x) = false -> ChainRespSpec.rm_once x = true
+  | None => False
+  end.
+Proof. exact ChainResp3.chain_resp_once_untainted. Qed.
+Print Assumptions C01_chain_once_untainted.
